@@ -86,15 +86,16 @@ def abstract_machines(tier):
     # from_.any() family: an event from every non-final state to one target
     for tgt in ("a", "c", "f"):
         for (g, u) in (((), ()), (("g1",), ()), ((), ("g2",)), (("g1",), ("g2",))):
-            for mixed in (False, True):
+            for mixed in (False, "b", "same-target"):
                 states = [("a", 1, True, False), ("b", 2, False, False), ("c", 3, False, False),
                           ("f", 4, False, True)]
                 ring = ("ring", [AT(("a", "b", (), ())), AT(("b", "c", (), ())),
                                  AT(("c", "a", (), ()))], False)
                 ats = [AT((s, tgt, g, u)) for s in ("a", "b", "c")]
                 if mixed:
-                    # one event = an explicit guarded transition followed by from_.any()
-                    ats = [AT(("a", "b", ("g1",), ()))] + ats
+                    # one event = an explicit guarded transition followed by from_.any(); the
+                    # explicit one may even lead to the very target of the any-transition
+                    ats = [AT(("a", "b" if mixed == "b" else tgt, ("g1",), ()))] + ats
                 anyev = ("close", ats, False)
                 fin = ("fin", [AT(("c", "f", (), ()))], False)
                 out.append((states, [ring, anyev] + ([fin] if tgt != "f" else [])))
@@ -202,6 +203,34 @@ def r_prebuilt_reordered(states, events):
         body.append(f"_ts{k} = [" + ", ".join(t_to(at) for at in ats) + "]")
         body.append(f"{name} = " + " | ".join(f"_ts{k}[{i}]" for i in reversed(range(len(ats)))))
         k += 1
+    return body + methods(events)
+
+
+def r_param_then_attr(states, events):
+    """The first transition of an event is declared with event='<name>', the remaining ones are
+    assigned to the class attribute of the same name."""
+    if not any(len(ats) >= 2 for (_n, ats, _o) in events):
+        return None
+    body = states_attr(states)
+    for (name, ats, on) in events:
+        if len(ats) >= 2:
+            body.append(t_to(ats[0], f"event={name!r}"))
+            body.append(f"{name} = " + " | ".join(t_to(at) for at in ats[1:]))
+        else:
+            body.append(f"{name} = " + " | ".join(t_to(at) for at in ats))
+    return body + methods(events)
+
+
+def r_attr_then_param(states, events):
+    if not any(len(ats) >= 2 for (_n, ats, _o) in events):
+        return None
+    body = states_attr(states)
+    for (name, ats, on) in events:
+        if len(ats) >= 2:
+            body.append(f"{name} = " + " | ".join(t_to(at) for at in ats[:-1]))
+            body.append(t_to(ats[-1], f"event={name!r}"))
+        else:
+            body.append(f"{name} = " + " | ".join(t_to(at) for at in ats))
     return body + methods(events)
 
 
@@ -368,7 +397,8 @@ def r_states_container(kind):
 
 RENDERERS = [
     ("canonical", r_canonical), ("from_", r_from), ("mixed-to-from", r_mixed),
-    ("or-right-assoc", r_or_right), ("ior", r_ior), ("prebuilt-reordered", r_prebuilt_reordered), ("multi-target", r_multi_target),
+    ("or-right-assoc", r_or_right), ("ior", r_ior), ("prebuilt-reordered", r_prebuilt_reordered),
+    ("event-param-then-attr", r_param_then_attr), ("attr-then-event-param", r_attr_then_param), ("multi-target", r_multi_target),
     ("multi-source", r_multi_source), ("itself", r_itself),
     ("event=str", r_event_param("str")), ("event=list", r_event_param("list")),
     ("event=Event", r_event_param("Event")), ("event=Event(id=)", r_event_param("Event-id")),
